@@ -42,12 +42,12 @@ deriving Repr, DecidableEq
 def SetData.new : SetData := ⟨[], false, none, [], []⟩
 
 structure Coll where
-  sd : Option SetData       -- `obj._vals_.get(attr)`
+  sd : SetData              -- `obj._vals_.get(attr)` (`None` = a fresh SetData: every reader creates it on demand)
   db : List Item            -- items the transaction view links to `obj`
 deriving Repr, DecidableEq
 
 inductive Op where
-  | seen (x : Item)
+  | seen (x : Item)         -- db_reverse_add / Set.load(obj, {x}): an item that is in the collection gets loaded
   | revAdd (x : Item)
   | revRemove (x : Item)
   | add (x : Item)
@@ -66,12 +66,6 @@ def ins (x : Item) (l : List Item) : List Item := if x ∈ l then l else l ++ [x
 
 def bump (c : Option Int) (d : Int) : Option Int := c.map (· + d)
 
-/-- `Set.load(obj, {x})`: is the item linked in the database?  (a removed item is not asked for) -/
-def partialLoad (c : Coll) (x : Item) : SetData :=
-  let sd := c.sd.getD SetData.new
-  if sd.fully then sd
-  else if x ∈ c.db ∧ x ∉ sd.removed then { sd with items := ins x sd.items } else sd
-
 /-- `reverse_add` on this SetData -/
 def revAdd (sd : SetData) (x : Item) : Except Err SetData :=
   if x ∈ sd.items ∨ x ∈ sd.added then .error .assertion
@@ -84,74 +78,61 @@ def revRemove (sd : SetData) (x : Item) : Except Err SetData :=
   else if x ∈ sd.added then .ok { sd with items := sd.items.erase x, count := bump sd.count (-1), added := sd.added.erase x }
   else .ok { sd with items := sd.items.erase x, count := bump sd.count (-1), removed := sd.removed ++ [x] }
 
-/-- the tail of `SetInstance.remove` for one item -/
+/-- the tail of `SetInstance.remove` for one item: `setdata -= items; count -= len(items);
+    if added: (items, added) = (items - added, added - items); removed |= items` -/
 def removeTail (sd : SetData) (x : Item) : SetData :=
   if x ∈ sd.added then { sd with items := sd.items.erase x, count := bump sd.count (-1), added := sd.added.erase x }
   else { sd with items := sd.items.erase x, count := bump sd.count (-1), removed := ins x sd.removed }
 
-/-- the tail of `SetInstance.add` for one item -/
+/-- the tail of `SetInstance.add` for one item: `setdata |= new_items; count += len(new_items);
+    if removed: (new_items, removed) = (new_items - removed, removed - new_items); added |= new_items` -/
 def addTail (sd : SetData) (x : Item) : SetData :=
   if x ∈ sd.removed then { sd with items := ins x sd.items, count := bump sd.count 1, removed := sd.removed.erase x }
   else { sd with items := ins x sd.items, count := bump sd.count 1, added := ins x sd.added }
 
-/-- one call; the `Option Int` is the value a read returns -/
+/-- `Set.load(obj)`: everything the database links, except what the session removed -/
+def loadAll (c : Coll) : SetData :=
+  if c.sd.fully then c.sd
+  else
+    let items := c.sd.items ++ c.db.filter fun y => decide (y ∉ c.sd.items) && decide (y ∉ c.sd.removed)
+    { c.sd with items := items, fully := true, count := some items.length }
+
+/-- one call; the `Option Int` is the value a read returns.  Loads done by `add` / `remove` (`Set.load(obj, items)`)
+    arrive as preceding `seen` / `loadAll` operations. -/
 def step (cfg : Cfg) (c : Coll) : Op → Except Err (Coll × Option Int)
   | .seen x =>
-    let sd := c.sd.getD SetData.new
-    if sd.fully ∧ x ∉ sd.items then .error .phantom
-    else .ok ({ c with sd := some { sd with items := ins x sd.items } }, none)
+    if c.sd.fully ∧ x ∉ c.sd.items then .error .phantom
+    else .ok ({ c with sd := { c.sd with items := ins x c.sd.items } }, none)
   | .revAdd x =>
-    match revAdd (c.sd.getD SetData.new) x with
-    | .ok sd => .ok ({ c with sd := some sd }, none)
+    match revAdd c.sd x with
+    | .ok sd => .ok ({ c with sd := sd }, none)
     | .error e => .error e
   | .revRemove x =>
-    match c.sd with
-    | none => .error .assertion
-    | some sd0 =>
-      match revRemove sd0 x with
-      | .ok sd => .ok ({ c with sd := some sd }, none)
-      | .error e => .error e
+    match revRemove c.sd x with
+    | .ok sd => .ok ({ c with sd := sd }, none)
+    | .error e => .error e
   | .add x =>
-    match c.sd with
-    | some sd0 =>
-      if x ∈ sd0.items then .ok (c, none)                                   -- new_items -= setdata: nothing left to add
-      else
-        let sd := partialLoad c x
-        if x ∈ sd.items then .ok ({ c with sd := some sd }, none)
-        else .ok ({ c with sd := some (addTail sd x) }, none)
-    | none =>
-      let sd := partialLoad c x
-      if x ∈ sd.items then .ok ({ c with sd := some sd }, none)
-      else .ok ({ c with sd := some (addTail sd x) }, none)
+    if x ∈ c.sd.items then .ok (c, none)                                     -- new_items -= setdata: nothing left to add
+    else .ok ({ c with sd := addTail c.sd x }, none)
   | .remove x =>
-    if (match c.sd with | some sd0 => decide (x ∈ sd0.removed) | none => false) then .ok (c, none)   -- items -= removed; if not items: return
+    if x ∈ c.sd.removed then .ok (c, none)                                   -- items -= removed; if not items: return
+    else if x ∉ c.sd.items then .ok (c, none)                                -- items &= setdata
+    else if cfg.m2m then .ok ({ c with sd := removeTail c.sd x }, none)      -- the other side's reverse_remove, then the tail
     else
-      let sd := partialLoad c x
-      if x ∉ sd.items then .ok ({ c with sd := some sd }, none)              -- items &= setdata
-      else if cfg.m2m then .ok ({ c with sd := some (removeTail sd x) }, none)
-      else
-        match revRemove sd x with                                           -- reverse.__set__(item, None) / item._delete_()
-        | .error e => .error e
-        | .ok sd1 => .ok ({ c with sd := some (if cfg.fixRemove then sd1 else removeTail sd1 x) }, none)
-  | .loadAll =>
-    let sd := c.sd.getD SetData.new
-    if sd.fully then .ok ({ c with sd := some sd }, none)
-    else
-      let new := c.db.filter fun y => y ∉ sd.items ∧ y ∉ sd.removed
-      let items := sd.items ++ new
-      .ok ({ c with sd := some { sd with items := items, fully := true, count := some items.length } }, some items.length)
+      match revRemove c.sd x with                                            -- reverse.__set__(item, None) / item._delete_()
+      | .error e => .error e
+      | .ok sd1 => .ok ({ c with sd := if cfg.fixRemove then sd1 else removeTail sd1 x }, none)
+  | .loadAll => .ok ({ c with sd := loadAll c }, some (loadAll c).items.length)     -- len(obj.coll)
   | .count =>
-    let sd := c.sd.getD SetData.new
-    match sd.count with
-    | some n => .ok ({ c with sd := some sd }, some n)
+    match c.sd.count with
+    | some n => .ok (c, some n)
     | none =>
-      let n : Int := (c.db.length : Int) + sd.added.length - sd.removed.length
-      .ok ({ c with sd := some { sd with count := some n } }, some n)
+      let n : Int := (c.db.length : Int) + c.sd.added.length - c.sd.removed.length
+      .ok ({ c with sd := { c.sd with count := some n } }, some n)
   | .flush =>
-    let db' := (c.db.filter fun y => match c.sd with | some sd => decide (y ∉ sd.removed) | none => true)
-               ++ (match c.sd with | some sd => sd.added | none => [])
+    let db' := (c.db.filter fun y => decide (y ∉ c.sd.removed)) ++ c.sd.added
     let reset := !cfg.m2m || cfg.owning || cfg.fixFlush
-    .ok ({ sd := c.sd.map fun sd => if reset then { sd with added := [], removed := [] } else sd, db := db' }, none)
+    .ok ({ sd := if reset then { c.sd with added := [], removed := [] } else c.sd, db := db' }, none)
 
 /-! ### the reference: what the program has in the collection -/
 
@@ -160,20 +141,29 @@ def specStep (l : List Item) : Op → List Item
   | .revRemove x | .remove x => l.erase x
   | _ => l
 
-/-- what the callers of the bookkeeping procedures guarantee (both ends agree, C12; single writer) -/
+/-- what the callers of the bookkeeping procedures guarantee: both ends of the relationship agree (C12), an item is only
+    handled after it was loaded, `Set.load(obj, items)` has resolved the operands of add / remove against the database -/
 def OpValid (c : Coll) (l : List Item) : Op → Prop
-  | .seen x => x ∈ l ∧ x ∈ c.db
+  | .seen x => x ∈ l
   | .revAdd x => x ∉ l
-  | .revRemove x => x ∈ l ∧ (match c.sd with | some sd => x ∈ sd.items | none => False)
+  | .revRemove x => x ∈ l ∧ x ∈ c.sd.items
+  | .add x => x ∈ l → x ∈ c.sd.items
+  | .remove x => x ∈ l → x ∈ c.sd.items
   | _ => True
 
-/-- the places where the code as found goes wrong are avoided, or repaired -/
+/-- the two places where the code as found goes wrong are avoided, or repaired -/
 def OpSafe (cfg : Cfg) : Op → Prop
   | .remove _ => cfg.m2m = true ∨ cfg.fixRemove = true
   | .flush => cfg.m2m = false ∨ cfg.owning = true ∨ cfg.fixFlush = true
   | _ => True
 
-/-- run a history on both; `reads` collects (returned value, |contents|) of every read -/
+instance (cfg : Cfg) (op : Op) : Decidable (OpSafe cfg op) := by
+  cases op <;> simp only [OpSafe] <;> infer_instance
+
+instance (c : Coll) (l : List Item) (op : Op) : Decidable (OpValid c l op) := by
+  cases op <;> simp only [OpValid] <;> infer_instance
+
+/-- a history on both machines; `reads` collects (returned value, number of items the program has) of every read -/
 def run (cfg : Cfg) : Coll → List Item → List Op → Except Err (Coll × List Item × List (Int × Int))
   | c, l, [] => .ok (c, l, [])
   | c, l, op :: ops =>
@@ -184,5 +174,14 @@ def run (cfg : Cfg) : Coll → List Item → List Op → Except Err (Coll × Lis
       match run cfg c' l' ops with
       | .error e => .error e
       | .ok (c'', l'', rs) => .ok (c'', l'', (match r with | some v => [(v, (l'.length : Int))] | none => []) ++ rs)
+
+/-- every call of the history is made in a state where its caller's guarantees hold -/
+def ValidFrom (cfg : Cfg) : Coll → List Item → List Op → Prop
+  | _, _, [] => True
+  | c, l, op :: ops =>
+    OpValid c l op ∧ OpSafe cfg op ∧
+      match step cfg c op with
+      | .error _ => True
+      | .ok (c', _) => ValidFrom cfg c' (specStep l op) ops
 
 end PonyVerif.Model.SetCount
